@@ -7,6 +7,7 @@ import (
 	"time"
 
 	"symgo/helper"
+	"symgo/instrument"
 	"symgo/interp"
 	"symgo/load"
 	"symgo/numgen"
@@ -23,6 +24,7 @@ type Session struct {
 	Shapes   []*numgen.Shape
 	SetupS   float64
 	OverlayJ string
+	Yields   int
 }
 
 type SessionOpts struct {
@@ -32,6 +34,7 @@ type SessionOpts struct {
 	NeedHelper bool
 	Extra      map[string][]byte
 	OutName    string
+	Instrument []string // files (relative to /repo) that get a Yield before every statement
 }
 
 func NewSession(o SessionOpts) (*Session, error) {
@@ -51,6 +54,19 @@ func NewSession(o SessionOpts) (*Session, error) {
 		extra[filepath.Join(repoDir, "internal/machine/vm/zz_shapes_gen.go")] = []byte(numgen.GoFile("vm", "zzShapes", s.Shapes))
 	} else {
 		extra[filepath.Join(repoDir, "internal/machine/vm/zz_shapes_gen.go")] = []byte("package vm\n\nvar zzShapes = []zzShape{}\n")
+	}
+	for _, rel := range o.Instrument {
+		p := filepath.Join(repoDir, rel)
+		src, err := os.ReadFile(p)
+		if err != nil {
+			return nil, err
+		}
+		out, n, err := instrument.File(p, src)
+		if err != nil {
+			return nil, fmt.Errorf("instrumenting %s: %v", rel, err)
+		}
+		extra[p] = out
+		s.Yields += n
 	}
 	ov, err := load.OverlayFromDir(harnessDir, repoDir, extra)
 	if err != nil {
